@@ -261,6 +261,40 @@ def check_props(prop_file, timeout=1500):
     return dict(ok=ok and not nonstd, theorems=thms, axioms=axioms, nonstd_axioms=nonstd, output=out)
 
 
+def coqchk_props(prop_file, timeout=3000):
+    """independent re-check (coqchk) of the compiled props module and everything it depends on; returns
+    dict(ok, axioms, output).  Thorough tier only (a minute or more, several GB)."""
+    mod = "GS." + prop_file[:-2].replace("/", ".")
+    cmd = "ulimit -s unlimited 2>/dev/null; exec timeout %d coqchk -silent -o -R . GS %s" % (timeout, mod)
+    try:
+        p = subprocess.run(["sh", "-c", cmd], cwd=COQ, stdout=subprocess.PIPE, stderr=subprocess.STDOUT, text=True, timeout=timeout + 60)
+        out, rc = p.stdout, p.returncode
+    except subprocess.TimeoutExpired as e:
+        out, rc = "coqchk timeout: %r" % (e,), 124
+    axioms, bad = [], []
+    sect = None
+    for line in out.splitlines():
+        m = re.match(r"\* ([^:]+):\s*(.*)$", line.strip())
+        if m:
+            sect = m.group(1)
+            if sect != "Axioms" and not sect.startswith("Theory") and m.group(2).strip() not in ("<none>", ""):
+                bad.append(line.strip())
+            continue
+        t = line.strip()
+        if not t or sect is None:
+            continue
+        if sect == "Axioms":
+            axioms.append(t)
+        elif not sect.startswith("Theory") and t != "<none>":
+            bad.append("%s: %s" % (sect, t))
+    for a in axioms:
+        short = a[4:] if a.startswith("Coq.") else a
+        if not any(short.endswith(s) or s.endswith(short) for s in STD_AXIOMS):
+            bad.append("axiom outside the standard library list: " + a)
+    ok = rc == 0 and "CONTEXT SUMMARY" in out and not bad
+    return dict(ok=ok, axioms=axioms, bad=bad, output=out)
+
+
 # --------------------------------------------------------------------------- OCaml driver
 
 def build_driver(tag, timeout=600):
@@ -529,6 +563,16 @@ class Ctx:
             self.discharged = list(r["theorems"])
             self.axioms = r["axioms"]
             log("[%s]   %d theorems checked" % (self.pid, len(self.discharged)))
+            if self.tier == "thorough" and os.environ.get("VERIF_NO_COQCHK") != "1":
+                c = coqchk_props(prop_file)
+                self.trusted.append("coqchk -o on GS.%s (independent checker, this run): %s; axioms %s"
+                                    % (prop_file[:-2].replace("/", "."), "ok" if c["ok"] else "FAILED", c["axioms"]))
+                log("[%s]   coqchk: %s" % (self.pid, "ok, axioms %s" % c["axioms"] if c["ok"] else "FAILED"))
+                if not c["ok"]:
+                    self.discharged = []
+                    self.proof_failure = dict(file=prop_file, forbidden=[], nonstd_axioms=c["bad"],
+                                              output_tail="\n".join(c["output"].splitlines()[-25:]))
+                    return False
             return True
         tail = "\n".join(r["output"].splitlines()[-25:])
         self.proof_failure = dict(file=prop_file, forbidden=bad, nonstd_axioms=r["nonstd_axioms"], output_tail=tail)
